@@ -98,7 +98,11 @@ def run(sid, scale, tier, seed):
             print(sid, "PATCH-FAILED", r.stdout, r.stderr)
             return None
         env = dict(os.environ, VERIF_REPO=root, VERIF_SCALE=str(scale), VERIF_NO_EVIDENCE="1", VERIF_REPLAY_DIR=os.path.join(root, "replays"), VERIF_SEED=str(seed))
-        p = sh([os.path.join(VERIF, "check"), prop, "--tier", tier], env=env, timeout=7200)
+        try:
+            p = sh([os.path.join(VERIF, "check"), prop, "--tier", tier], env=env, timeout=4 * 3600)
+        except subprocess.TimeoutExpired:
+            print(sid, "TIMEOUT")
+            return None
         viol = [ln for ln in p.stdout.splitlines() if ln.startswith("VIOLATION")]
         detail = [ln for ln in p.stdout.splitlines() if ln.startswith("violation:")]
         caught = p.returncode == 1 and bool(viol)
